@@ -206,6 +206,9 @@ func (f *File) Write(b []byte) (int, error) {
 		total := 0
 		for len(b) > 0 {
 			k := min(c, len(b))
+			if !takeChunkBudget() {
+				k = len(b) // budget of split writes used up: the rest goes in one call
+			}
 			n, err := f.write1(b[:k])
 			total += n
 			if err != nil {
